@@ -1203,3 +1203,408 @@ def check_C17(work, tier, seed):
 
 
 CHECKS.update({"C14": check_C14, "C15": check_C15, "C16": check_C16, "C17": check_C17})
+
+
+# ------------------------------------------------------------------ C13 back-end selection
+
+def gen_c13(seed, tier):
+    sc = Sc(seed)
+    n = 200 if tier == "thorough" else 40
+    garb = [0, 1, 7, 0xFFFFFFFF, 0xFFFFFFFFFFFFFFFF, 0x80000000, 0xDEADBEEFCAFEF00D]
+    for kind in ("s128", "s64", "mantis"):
+        for cap in (2, 1, 0):
+            sc.reset("c13-%s-cap%d" % (kind, cap))
+            for i in range(n):
+                g = garb[i % len(garb)] if i % 3 else sc.rng.getrandbits(64)
+                if i % 11 == 0:
+                    sc.raw("set paint=%d" % sc.rng.choice([0, 255, 165, 256]))
+                sc.ctr_init(kind, i % 8, cap=cap, garbage=hex(g), prefill=sc.rng.choice([None, 0, 255]))
+                sc.par_init(kind, i % 8, cap=cap, garbage=hex(g ^ 0x5555))
+                sc.ctr_cleanup(kind, i % 8)
+                sc.par_cleanup(kind, i % 8)
+            sc.raw("set paint=-1")
+        # without any cap argument (cap stays at its default) and interleaved kinds
+    sc.reset("c13-mixed")
+    for i in range(n):
+        kind = sc.rng.choice(("s128", "s64", "mantis"))
+        sc.ctr_init(kind, 0, garbage=hex(sc.rng.getrandbits(64)))
+        sc.par_init(kind, 0, garbage=hex(sc.rng.getrandbits(64)))
+        if i % 5 == 0:
+            sc.ctr_set_key(kind, 0, valid_key(sc, kind), rounds=6)
+            sc.ctr_encrypt(kind, 0, sc.rb(70))
+        sc.ctr_cleanup(kind, 0)
+        sc.par_cleanup(kind, 0)
+    return sc
+
+
+def check_C13(work, tier, seed):
+    out = Outcome()
+    r, ok = run_mc(work, out, "MC_Probe", "MC_Probe", must_cover=("DoInit",))
+    if not ok:
+        mc_violation("C13", out, "MC_Probe", r)
+    run_mc(work, out, "MC_Probe", "MCneg_Probe_shipped", expect_fail=True)
+    b = build(work)
+    lines = conform(work, b, "C13", seed, gen_c13(seed, tier).text(), out)
+    # the hook-free build must select the same back ends (the cap defaults to "no cap")
+    b0 = build(work, name="nohook", hooks=False)
+    sc0 = gen_c13(seed, "quick")
+    sc0.lines = [ln for ln in sc0.lines if "cap=" not in ln or "cap=2" in ln]
+    lines0 = conform(work, b0, "C13", seed, sc0.text(), out, tag="-nohook")
+    for ln in lines + lines0:
+        if '_init"' in ln:
+            ev = json.loads(ln)
+            out.distinct.add((ev.get("e"), ev.get("k"), ev.get("cap"), ev.get("be"), ev.get("psize")))
+    out.samples = sample_events([x for x in lines if '_init"' in x], maxlen=220) + [lines[0]]
+    return out, dict(
+        level="model_checking",
+        rule="Design: MC_Probe (TLC exhaustive): CPU models (SSE2 x AVX2) x build configurations x caps x arbitrary "
+             "sub-leaf register contents, probe and cascade as the code performs them: SelectWidest, SelectStable, "
+             "NeverExceeds, psize = f(back end); the as-shipped probe (sub-leaf register not set) must fail. Code: "
+             "every init of all six object kinds in many calling contexts (caller-saved registers loaded with seeded "
+             "garbage immediately before the call, stack painted, prior handle contents), under each cap and in a "
+             "hook-free build; back end identified by vtable identity / parallel_size and compared by TLC with "
+             "Widest(env) where env is the harness's own CPUID/XGETBV reading. distinct = distinct "
+             "(function, kind, cap, back end, psize) observations.",
+        assumptions=["OS enables YMM state whenever CPUID reports AVX2 (explicit environment assumption of MC_Probe; "
+                     "the harness's ground truth does test XGETBV)",
+                     "only this host's CPU can be observed; lesser CPUs are emulated downward by hook H2"])
+
+
+CHECKS.update({"C13": check_C13})
+
+
+# ------------------------------------------------------------------ composite scenario set (C11, C12, C18, C19 reuse)
+
+def sc_executions(sc):
+    """split a scenario into header lines and executions (lists of lines)"""
+    head, execs, cur = [], [], None
+    for ln in sc.lines:
+        if ln.startswith("reset"):
+            if cur is not None:
+                execs.append(cur)
+            cur = [ln]
+        elif cur is None:
+            head.append(ln)
+        else:
+            cur.append(ln)
+    if cur is not None:
+        execs.append(cur)
+    return head, execs
+
+
+def gen_composite(seed, tier, cap_for=lambda k: 2, extra_head=()):
+    """the scenario sets of C01-C07, C10, C14 in one scenario text"""
+    parts = [gen_c01(seed, "quick"), gen_c02(seed, "quick"), gen_c03(seed, "quick", cap_for),
+             gen_c04(seed, "quick", cap_for), gen_ctr(seed, "quick", cap_for, c06=True),
+             gen_c07(seed, "quick", cap_for), gen_c10(seed, "quick", cap_for), gen_c14(seed, "quick", cap_for)]
+    if tier == "thorough":
+        parts += [gen_c15(seed, "quick", cap_for), gen_c17(seed, "quick", cap_for),
+                  gen_ctr(seed + 7, "quick", cap_for, c06=True), gen_c04(seed + 7, "quick", cap_for)]
+    lines = ["env", "layout"] + list(extra_head)
+    n = 0
+    for p in parts:
+        h, ex = sc_executions(p)
+        for e in ex:
+            n += 1
+            # make execution tags unique across parts
+            e = [e[0] + "-%d" % n] + e[1:]
+            lines += e
+    return "\n".join(lines) + "\n"
+
+
+def thin(text, keep_every, offset=0):
+    """keep every n-th execution of a scenario text (header kept)"""
+    head, execs, cur = [], [], None
+    for ln in text.split("\n"):
+        if not ln:
+            continue
+        if ln.startswith("reset"):
+            if cur is not None:
+                execs.append(cur)
+            cur = [ln]
+        elif cur is None:
+            head.append(ln)
+        else:
+            cur.append(ln)
+    if cur is not None:
+        execs.append(cur)
+    kept = [e for i, e in enumerate(execs) if i % keep_every == offset % keep_every]
+    return "\n".join(head + [ln for e in kept for ln in e]) + "\n"
+
+
+def axis_compare(work, pid, seed, out, ref_lines, label, b, text, tag):
+    """run `text` on build b, accept executions identical to the reference,
+    validate differing ones with TLC (their rejection point is the diagnosis)"""
+    lines = run_drv(b, text)
+    out.events += len(lines)
+    head, diff = compare_axis(work, ref_lines, lines, label, pid, seed, out)
+    if diff:
+        out.notes.append("%s: %d execution(s) differ from the reference" % (label, len(diff)))
+        sub = Outcome()
+        conform_lines(work, pid, seed, head + [ln for ex in diff for ln in ex], text, sub, tag=tag)
+        if not sub.violations:
+            # differs from the reference although both satisfy the contract: impossible for a
+            # deterministic contract unless an unmodelled field differs -- report it
+            p = save_replay(pid, "%s%s" % (seed, tag), 900, head + diff[0], "trace differs from reference: " + label)
+            sub.violations.append(("differs:" + label, p,
+                                   "execution %s differs from the validated reference under %s although TLC accepts both"
+                                   % (diff[0][0][:80], label)))
+        out.merge(sub)
+    return lines
+
+
+def check_C11(work, tier, seed):
+    out = Outcome()
+    r, ok = run_mc(work, out, "MC_Det", "MC_Det", must_cover=("Call",))
+    if not ok:
+        mc_violation("C11", out, "MC_Det", r)
+    b_ref = build(work, name="gcc-O3")
+    text = gen_composite(seed, tier)
+    vt = text if tier == "thorough" else thin(text, 3, seed)
+    ref_v = conform(work, b_ref, "C11", seed, vt, out, tag="-ref")
+    ref = run_drv(b_ref, text)
+    out.events += len(ref)
+    # axis 1: stack / handle contents (separate processes each)
+    paints = (0, 255, 165, 256)
+    for p in paints:
+        t2 = text.replace("env\nlayout\n", "env\nlayout\nset paint=%d\n" % p, 1)
+        axis_compare(work, "C11", seed, out, ref, "stack painted %d" % p, b_ref, t2, "-paint%d" % p)
+    # axis 2: optimisation level and compiler (stack painted too)
+    builds = [("gcc-O0", "gcc", "-O0"), ("clang-O2", "clang", "-O2")]
+    if tier == "thorough":
+        builds += [("gcc-O1", "gcc", "-O1"), ("gcc-O2", "gcc", "-O2"), ("clang-O0", "clang", "-O0"),
+                   ("clang-O3", "clang", "-O3")]
+    for name, cc, opt in builds:
+        b = build(work, name=name, cc=cc, opt=opt)
+        for p in ((165,) if tier == "quick" else (165, 0)):
+            t2 = text.replace("env\nlayout\n", "env\nlayout\nset paint=%d\n" % p, 1)
+            axis_compare(work, "C11", seed, out, ref, "%s paint %d" % (name, p), b, t2, "-%s-%d" % (name, p))
+    note_distinct(out, ref, ("o", "len", "n"))
+    out.samples = sample_events(ref, maxlen=200)
+    return out, dict(
+        level="exploration",
+        rule="The scenario sets of C01-C07, C10 (every in-between key length), C14 are executed in separate "
+             "processes with the stack below every call painted 0x00/0xFF/0xA5/ramp, caller handles pre-filled, heap "
+             "blocks fresh from mmap or poisoned quarantine, under gcc -O3/-O0 and clang -O2 (thorough: gcc -O0..-O3, "
+             "clang -O0/-O2/-O3). Every trace (return values, outputs, schedule images byte by byte) must be "
+             "identical to the reference trace, a sample (quick: every 3rd execution; thorough: all) of which is "
+             "validated by TLC against the deterministic contract; differing executions are validated by TLC to "
+             "locate the fault. MC_Det checks that the contract has at most one successor per call (determinism). "
+             "distinct = distinct (event,kind,rr,len,key,input) tuples of the reference.",
+        assumptions=["memory perturbation is by painting, poisoning and process separation; it cannot prove absence "
+                     "of an uninitialised read whose value never reaches an observable"])
+
+
+CHECKS.update({"C11": check_C11})
+
+
+# ------------------------------------------------------------------ C12 build matrix
+
+def matrix(tier):
+    simd = [(1, 1, 1), (1, 1, 0), (1, 0, 0), (0, 0, 0)]       # (LE, V128, V256); V256 without V128 is not a shipped combination
+    full = []
+    for w64 in (1, 0):
+        for ua in (1, 0):
+            for (le, v128, v256) in simd:
+                for cc in ("gcc", "clang"):
+                    for opt in ("-O0", "-O1", "-O2", "-O3"):
+                        full.append(dict(w64=w64, ua=ua, le=le, v128=v128, v256=v256, cc=cc, opt=opt))
+    if tier == "thorough":
+        return full
+    # quick: a pairwise-covering subset (every pair of values of two switches occurs together)
+    pick = [
+        dict(w64=1, ua=1, le=1, v128=1, v256=1, cc="clang", opt="-O2"),
+        dict(w64=0, ua=1, le=1, v128=1, v256=1, cc="gcc", opt="-O0"),
+        dict(w64=1, ua=0, le=1, v128=1, v256=0, cc="gcc", opt="-O1"),
+        dict(w64=0, ua=0, le=1, v128=1, v256=0, cc="clang", opt="-O3"),
+        dict(w64=1, ua=1, le=1, v128=0, v256=0, cc="gcc", opt="-O2"),
+        dict(w64=0, ua=0, le=1, v128=0, v256=0, cc="clang", opt="-O0"),
+        dict(w64=1, ua=0, le=0, v128=0, v256=0, cc="clang", opt="-O1"),
+        dict(w64=0, ua=1, le=0, v128=0, v256=0, cc="gcc", opt="-O3"),
+        dict(w64=0, ua=0, le=0, v128=0, v256=0, cc="gcc", opt="-O2"),
+        dict(w64=1, ua=1, le=0, v128=0, v256=0, cc="gcc", opt="-O0"),
+        dict(w64=0, ua=1, le=1, v128=1, v256=0, cc="clang", opt="-O1"),
+        dict(w64=1, ua=0, le=1, v128=1, v256=1, cc="gcc", opt="-O3"),
+    ]
+    return pick
+
+
+def cfg_name(c):
+    return "w%d-u%d-le%d-v%d%d-%s%s" % (c["w64"], c["ua"], c["le"], c["v128"], c["v256"], c["cc"], c["opt"])
+
+
+def build_cfg(work, c):
+    defs = ["SKINNY_VERIF_64BIT=%d" % c["w64"], "SKINNY_VERIF_UNALIGNED=%d" % c["ua"],
+            "SKINNY_VERIF_LITTLE_ENDIAN=%d" % c["le"], "SKINNY_VERIF_VEC128_MATH=%d" % c["v128"],
+            "SKINNY_VERIF_VEC256_MATH=%d" % c["v256"]]
+    return build(work, name=cfg_name(c), cc=c["cc"], opt=c["opt"], defs=defs,
+                 built128=c["v128"], built256=c["v256"])
+
+
+def check_C12(work, tier, seed):
+    out = Outcome()
+    b_ref = build(work, name="shipped")
+    text = gen_composite(seed, "quick")
+    vt = text if tier == "thorough" else thin(text, 3, seed + 1)
+    conform(work, b_ref, "C12", seed, vt, out, tag="-ref")
+    ref = run_drv(b_ref, text)
+    out.events += len(ref)
+    cfgs = matrix(tier)
+    from concurrent.futures import ThreadPoolExecutor
+    def one(c):
+        try:
+            return c, build_cfg(work, c), None
+        except Broken as e:
+            return c, None, e
+    with ThreadPoolExecutor(max_workers=4) as tp:
+        built = list(tp.map(one, cfgs))
+    nb = 0
+    for c, b, err in built:
+        if err is not None:
+            raise Broken("configuration %s does not build: %s" % (cfg_name(c), str(err)[-800:]))
+        nb += 1
+        axis_compare(work, "C12", seed, out, ref, cfg_name(c), b, text, "-" + cfg_name(c))
+        out.distinct.add(cfg_name(c))
+        shutil.rmtree(b.root, ignore_errors=True)
+    out.samples = [cfg_name(c) for c in cfgs[:8]] + sample_events(ref, n=2, maxlen=160)
+    return out, dict(
+        level="exploration",
+        exhaustive=(tier == "thorough"),
+        rule="Build matrix through hook H1: {64/32-bit words} x {unaligned fast paths on/off} x {(LE,V128,V256) in "
+             "(1,1,1),(1,1,0),(1,0,0),(0,0,0)} x {gcc, clang} x {-O0..-O3} = 128 builds (thorough: all; quick: a "
+             "12-build pairwise-covering subset). Each build runs the full scenario sets of C01-C07, C10, C14 "
+             "(incl. reduced-round S-box sweeps and every in-between key length); every execution must be identical "
+             "to the shipped build's reference trace up to the back-end name (a sample of which - quick: every 3rd "
+             "execution, thorough: all - is validated by TLC); differing executions are validated by TLC with the "
+             "build's own env (built128/built256). distinct = number of configurations run.",
+        extra=dict(configurations=nb),
+        assumptions=["big-endian hosts and NEON cannot be run; the byte-order-neutral scalar path is exercised on "
+                     "this little-endian host through SKINNY_LITTLE_ENDIAN=0 as the property scopes it"])
+
+
+CHECKS.update({"C12": check_C12})
+
+
+# ------------------------------------------------------------------ C09 buffer contract
+
+def gen_c09(seed, tier, cap_for=lambda k: 2):
+    sc = Sc(seed, placements=False)
+    thorough = tier == "thorough"
+    aligns = list(range(32)) if thorough else [0, 1, 2, 3, 4, 7, 8, 15, 16, 17, 24, 31]
+    pls = ["e", "s"] + ["m%d" % a for a in aligns]
+    for kind in ("s128", "s64"):
+        bs = BS[kind]
+        # single-block functions: every overlap offset, both directions, plain and tweaked
+        sc.reset("c09-ov-%s" % kind)
+        sc.ks_set_key(kind, 0, sc.rb(2 * bs))
+        sc.ks_set_tweaked_key(kind, 0, sc.rb(bs))
+        sc.ks_set_tweak(kind, 0, sc.rb(bs))
+        for off in range(-(bs - 1), bs):
+            blk = sc.rb(bs)
+            sc.ks_crypt(True, kind, 0, blk, ov=off)
+            sc.ks_crypt(False, kind, 0, blk, ov=off)
+            if thorough or off % 3 == 0:
+                sc.ks_crypt(True, kind, 0, blk, t=1, ov=off)
+        # every pointer argument at every placement
+        sc.reset("c09-pl-%s" % kind)
+        for pl in pls:
+            key = sc.rb(sc.rng.choice((bs, bs + 1, 2 * bs - 1, 3 * bs)))
+            sc.op("ks_set_key", k=kind, o=0, t=0, key=hx(key), len=len(key), pk=pl)
+            blk = sc.rb(bs)
+            kw = {"in": hx(blk)}
+            sc.op("ks_enc", k=kind, o=0, t=0, pi=pl, po=sc.rng.choice(pls), **kw)
+            sc.op("ks_dec", k=kind, o=0, t=0, pi=sc.rng.choice(pls), po=pl, **kw)
+            tkey = sc.rb(sc.rng.choice((bs, bs + 3, 2 * bs)))
+            sc.op("ks_set_tweaked_key", k=kind, o=1, key=hx(tkey), len=len(tkey), pk=pl)
+            tl = sc.rng.choice((1, 2, bs - 1, bs))
+            sc.op("ks_set_tweak", k=kind, o=1, tweak=hx(sc.rb(tl)), len=tl, pt=pl)
+            sc.op("ks_enc", k=kind, o=1, t=1, pi=pl, po=pl, **kw)
+    sc.reset("c09-mantis")
+    sc.mk_set_key(0, sc.rb(16), 6, 1)
+    for off in range(-7, 8):
+        blk = sc.rb(8)
+        sc.mk_crypt(0, blk, ov=off)
+        sc.mk_crypt(0, blk, tweak=sc.rb(8), ov=off)
+    for pl in pls:
+        sc.op("mk_set_key", o=1, key=hx(sc.rb(16)), len=16, rounds=7, mode=1, pk=pl)
+        sc.op("mk_set_tweak", o=1, tweak=hx(sc.rb(8)), len=8, pt=pl)
+        kw = {"in": hx(sc.rb(8))}
+        sc.op("mk_crypt", o=1, pi=pl, po=sc.rng.choice(pls), **kw)
+        sc.op("mk_crypt_tw", o=1, pi=sc.rng.choice(pls), po=pl, tweak=hx(sc.rb(8)), pt=pl, **kw)
+    # bulk calls: lengths 0..17 blocks and ragged, exact aliasing and disjoint, every placement
+    for kind in ("s128", "s64", "mantis"):
+        bs = BS[kind]
+        sc.reset("c09-ctr-%s" % kind)
+        sc.ctr_init(kind, 0, cap=cap_for(kind))
+        sc.op("ctr_set_key", k=kind, o=0, key=hx(valid_key(sc, kind)), rounds=6, pk="e")
+        lens = list(range(0, 18))
+        for i, nbk in enumerate(lens):
+            if nbk in (7, 11, 14, 16):
+                sc.ctr_cleanup(kind, 0)
+                sc.reset("c09-ctr-%s-%d" % (kind, nbk))
+                sc.ctr_init(kind, 0, cap=cap_for(kind))
+                sc.op("ctr_set_key", k=kind, o=0, key=hx(valid_key(sc, kind)), rounds=6, pk="s")
+            for extra in ((0, 1, bs - 1) if (thorough or nbk % 4 == 1) else (0, 5)):
+                n = nbk * bs + extra
+                pl = pls[(i * 3 + extra) % len(pls)]
+                cl = sc.rng.randrange(0, bs + 1)
+                sc.op("ctr_set_counter", k=kind, o=0, ctr=hx(sc.rb(cl)), len=cl, pt=pl)
+                kw = {"in": hx(sc.rb(n))}
+                sc.op("ctr_encrypt", k=kind, o=0, pi=pl, po=pls[(i * 5 + 1) % len(pls)], **kw)
+                sc.op("ctr_encrypt", k=kind, o=0, pi=pl, ip=1, **kw)
+        sc.ctr_cleanup(kind, 0)
+        sc.reset("c09-par-%s" % kind)
+        sc.par_init(kind, 0, cap=cap_for(kind))
+        k = valid_key(sc, kind)
+        sc.op("par_set_key", k=kind, o=0, key=hx(k), len=len(k), rounds=6, mode=1, pk="e")
+        for i, nbk in enumerate(range(0, 18)):
+            if nbk in (8, 12, 15):
+                sc.par_cleanup(kind, 0)
+                sc.reset("c09-par-%s-%d" % (kind, nbk))
+                sc.par_init(kind, 0, cap=cap_for(kind))
+                k = valid_key(sc, kind)
+                sc.op("par_set_key", k=kind, o=0, key=hx(k), len=len(k), rounds=6, mode=1, pk="s")
+            pl = pls[(i * 7) % len(pls)]
+            kw = {"in": hx(sc.rb(nbk * bs))}
+            if kind == "mantis":
+                kw["tweak"] = hx(sc.rb(nbk * 8))
+                sc.op("par_crypt", k=kind, o=0, pi=pl, po=pls[(i * 5 + 2) % len(pls)], pt=pls[(i * 11 + 1) % len(pls)], **kw)
+                sc.op("par_crypt", k=kind, o=0, pi=pl, ip=1, pt="e", **kw)
+            else:
+                sc.op("par_encrypt", k=kind, o=0, pi=pl, po=pls[(i * 5 + 2) % len(pls)], **kw)
+                sc.op("par_decrypt", k=kind, o=0, pi=pl, ip=1, **kw)
+        sc.par_cleanup(kind, 0)
+    return sc
+
+
+def check_C09(work, tier, seed):
+    out = Outcome()
+    r, ok = run_mc(work, out, "MC_Mem", "MC_Mem", must_cover=("Single", "Bulk"))
+    if not ok:
+        mc_violation("C09", out, "MC_Mem", r)
+    run_mc(work, out, "MC_Mem", "MCneg_Mem_stream", expect_fail=True)
+    b = build(work)
+    lines = backend_sweep(work, b, "C09", seed, lambda cf: gen_c09(seed, tier, cf), out)
+    # the byte-wise (no unaligned fast path) build must obey the same contract
+    b2 = build(work, name="noua", defs=["SKINNY_VERIF_UNALIGNED=0"])
+    axis_compare(work, "C09", seed, out, lines, "SKINNY_UNALIGNED=0", b2, gen_c09(seed, tier).text(), "-noua")
+    note_distinct(out, lines, ("o", "ov", "n", "len"))
+    out.samples = sample_events([x for x in lines if '"ov"' in x or '"ip":1' in x], maxlen=220)
+    return out, dict(
+        level="model_checking",
+        rule="Design: MC_Mem (TLC exhaustive): every placement of input and output windows in a 12-byte arena "
+             "(all overlaps) for single-block calls and exact aliasing / disjoint placement for bulk calls of 0..3 "
+             "blocks: result = F(pre-state input), frame condition; a store-as-you-go variant must fail. Code: every "
+             "overlap offset -(bs-1)..bs-1 for every single-block function of the three ciphers; every pointer "
+             "argument (key, tweak, counter, input, output, tweak array) flush against a PROT_NONE page at its end, "
+             "flush against one at its start, and at alignments 0..31 (quick: 12 of them) inside a canary-filled "
+             "arena whose every byte outside the output extent is compared after the call; bulk calls of 0..17 "
+             "blocks and ragged byte counts in place and out of place; every back end and the byte-wise "
+             "(SKINNY_UNALIGNED=0) build; all results validated by TLC against the specification (which has no "
+             "notion of alignment). An out-of-extent access is a crash event (no spec action); a stray write is a "
+             "rejected event.",
+        assumptions=["reads that stay inside mapped, unguarded memory between the guarded ends are invisible to this "
+                     "check (C08's address traces see them)"])
+
+
+CHECKS.update({"C09": check_C09})
